@@ -100,6 +100,7 @@ type replayResult struct {
 	Diverged   string // "" or description of the first divergence between spec and code
 	Step       int
 	WrongData  []string
+	Panic      string // a goroutine panicked inside the cache
 	Hang       bool
 	Steps      int
 	FinalState squashfs.VerifSnapshot
@@ -147,6 +148,17 @@ func lruReplay(steps []lruStep, readers []string, maxInit int, resizes []int) re
 		ready := make(chan struct{})
 		go func() {
 			defer wg.Done()
+			defer func() {
+				// a panic inside the cache (it may hold the cache's lock: the others then never finish)
+				if r := recover(); r != nil {
+					wrongMu.Lock()
+					if res.Panic == "" {
+						res.Panic = fmt.Sprintf("%s: %v", name, r)
+					}
+					wrongMu.Unlock()
+					ctl.arrive <- arrival{g: name, done: true}
+				}
+			}()
 			ctl.mu.Lock()
 			ctl.byGoid[goid()] = name
 			ctl.mu.Unlock()
@@ -515,6 +527,8 @@ func C17(c *core.Ctx) {
 			}
 			rep := map[string]any{"readers": g.readers, "positions": g.npos, "maxInit": g.maxInit, "ops": g.ops, "resizes": g.rz, "schedule": brief, "result": res}
 			switch {
+			case res.Panic != "":
+				c.FailClass("lru-panic", []string{"lru-panic"}, fmt.Sprintf("forced interleaving: panic inside the block cache: %s (after %s)", res.Panic, res.Diverged), rep)
 			case res.Hang:
 				c.FailClass("lru-goroutines-do-not-finish", []string{"lru-goroutines-do-not-finish"}, fmt.Sprintf("forced interleaving: goroutines did not finish after %s", res.Diverged), rep)
 			case len(res.WrongData) > 0:
